@@ -300,6 +300,14 @@ def run(ctx: Ctx) -> int:
     ok = bool(conv) and all(any(isinstance(t, ast.Call) and call_leaf(t) == "isinstance" and isinstance(t.args[0], ast.Name) and t.args[0].id == cp_ and pol for t, pol in guard_atoms_(c, pic)) for c in conv)
     ctx.oblige("C14.k", ok, conv[0] if conv else pic, "a dict configuration is converted to a Namespace before classes are instantiated" if ok else "the dict -> Namespace conversion of instantiate_classes no longer depends on the argument being a dict: a configuration given as a plain dict (json.loads(parser.dump(cfg))) comes back untouched - nothing is instantiated, no error", fn=pic)
 
+    # (4) a class is a fixed dataclass GROUP only if every class behind it is a dataclass (mixed inheritance - a plain
+    #     class deriving from a dataclass, a dataclass deriving from a plain class - stays a sub-classable type whose
+    #     class_path can be chosen)
+    idl = ctx.func("_common:is_dataclass_like")
+    quant = [c for c in calls_in(idl) if isinstance(c.func, ast.Name) and c.func.id in ("all", "any") and any(call_leaf(x) == "is_dataclass" for x in calls_in(c))]
+    ok = bool(quant) and all(c.func.id == "all" and c.args and isinstance(c.args[0], ast.GeneratorExp) for c in quant) and not [c for c in calls_in(idl) if call_leaf(c) == "is_dataclass" and not any(c in ast.walk(q) for q in quant)]
+    ctx.oblige("C14.k", ok, quant[0] if quant else idl, "dataclass-likeness is decided over the whole MRO" if ok else "is_dataclass_like looks at the class alone (dataclasses.is_dataclass is true for anything that INHERITS __dataclass_fields__): a dataclass deriving from a plain class becomes a fixed group - every class_path of a valid subclass is refused, a lazy_instance default of a subclass silently builds the base class", fn=idl, construct="dataclass-like over the MRO")
+
     # ---------------- C14.j: every class argument is visited by the merge-time discard ----------------------------
     # ActionTypeHint.discard_init_args_on_class_path_change walks a key list by index and prunes the entries nested
     # under a handled class argument; the list it continues on must still start with the visited prefix, or the walk
